@@ -76,8 +76,11 @@ Inductive cstage := CSetup | CDataIn | CDataOut | CStatusIn | CStatusOut.
 Inductive hstate := HIdle | HGetStatus | HClearFeature | HSetAddress | HSetConfig | HGetDescriptor
                   | HGetConfig | HUnhandled.
 Record cx_state := { x_ctl : cstage; x_h : hstate; x_pid : bool (* tx_data_pid *);
-                     x_ea : bool (* expecting_ack *); x_sp : N (* start_position *) }.
-Definition cx_init : cx_state := {| x_ctl := CSetup; x_h := HIdle; x_pid := true; x_ea := false; x_sp := 0 |}.
+                     x_ea : bool (* expecting_ack *); x_sp : N (* start_position *);
+                     x_wa : bool; x_wc : bool (* the expecting_ack registers of the SET_ADDRESS / SET_CONFIGURATION
+                                                 states; only with the C08 repair, see `gate` *) }.
+Definition cx_init : cx_state :=
+  {| x_ctl := CSetup; x_h := HIdle; x_pid := true; x_ea := false; x_sp := 0; x_wa := false; x_wc := false |}.
 
 (* outputs *)
 Record cx_out := {
@@ -103,6 +106,12 @@ Definition h_quiet (pid : bool) : h_out :=
 Section CtlXfer.
   Variables EP mps spw : N.
   Variable skip : N -> bool.
+  (* gate = false: handle_register_write_request as found -- ANY host ACK commits a pending SET_ADDRESS /
+     SET_CONFIGURATION (C08's finding; C07 / C10 do not depend on it).  gate = true: with the candidate repair of
+     C08 (findings/C08-ack-any-endpoint.diff) -- a per-state flag is set with the status ZLP, cleared by any new
+     token or SETUP packet, and only an ACK arriving while it is set (and not together with a SETUP packet) commits.
+     All theorems hold for both values; the check ties the netlist to the variant the tree implements. *)
+  Variable gate : bool.
 
   Definition i_tgt (i : N) : bool := i_ep i =? EP.                   (* endpoint_targeted *)
 
@@ -149,18 +158,28 @@ Section CtlXfer.
     else HUnhandled.
 
   (* the state's own transition, before the new-SETUP rule *)
-  Definition h_own_next (h : hstate) (i : N) (dr sr : bool) : hstate :=
+  (* cm = the pending register write is committed in this cycle *)
+  Definition h_own_next (h : hstate) (i : N) (dr sr cm : bool) : hstate :=
     match h with
     | HIdle => HIdle
     | HGetStatus | HGetConfig => if sr then HIdle else h
-    | HClearFeature | HSetAddress | HSetConfig => if i_ack i then HIdle else h
+    | HClearFeature => if i_ack i then HIdle else h
+    | HSetAddress | HSetConfig => if cm then HIdle else h
     | HGetDescriptor => if sr || i_dstall i then HIdle else h
     | HUnhandled => if dr || sr then HIdle else h
     end.
 
   (* (a): setup.received re-dispatches from every state *)
-  Definition h_next (h : hstate) (i : N) (dr sr : bool) : hstate :=
-    if i_rcv i then (if skip i then HIdle else dispatch i) else h_own_next h i dr sr.
+  Definition h_next (h : hstate) (i : N) (dr sr cm : bool) : hstate :=
+    if i_rcv i then (if skip i then HIdle else dispatch i) else h_own_next h i dr sr cm.
+  (* the flag of the SET_ADDRESS (resp. SET_CONFIGURATION) state; `here` = the handler is in that state *)
+  Definition w_next (here w : bool) (i : N) (sr cm : bool) : bool :=
+    if gate && here
+    then (if i_rcv i then false else if cm then false else if sr then true else if i_new i then false else w)
+    else w.
+  Definition commit (h : hstate) (wa wc : bool) (i : N) : bool :=
+    let w := match h with HSetAddress => wa | HSetConfig => wc | _ => false end in
+    i_ack i && (negb gate || (w && negb (i_rcv i))).
 
   Definition h_pid_next (h : hstate) (pid ea : bool) (i : N) : bool :=
     if i_rcv i then true else
@@ -183,7 +202,7 @@ Section CtlXfer.
     | _ => sp
     end.
 
-  Definition h_outputs (h : hstate) (pid : bool) (i : N) (dr sr : bool) : h_out :=
+  Definition h_outputs (h : hstate) (pid : bool) (i : N) (dr sr cm : bool) : h_out :=
     let q := h_quiet pid in
     match h with
     | HIdle => q
@@ -196,11 +215,11 @@ Section CtlXfer.
            h_halt := if i_ack i then 1 + 2 * bits (i_index i) 7 1 + 4 * bits (i_index i) 0 4 else 0 |}
     | HSetAddress =>
         {| h_ack := false; h_stall := false; h_txv := sr; h_txf := false; h_txl := sr; h_pid := pid;
-           h_ac := i_ack i; h_na := if i_ack i then bits (i_value i) 0 7 else 0; h_cc := false; h_nc := 0;
+           h_ac := cm; h_na := if cm then bits (i_value i) 0 7 else 0; h_cc := false; h_nc := 0;
            h_halt := 0 |}
     | HSetConfig =>
         {| h_ack := false; h_stall := false; h_txv := sr; h_txf := false; h_txl := sr; h_pid := pid;
-           h_ac := false; h_na := 0; h_cc := i_ack i; h_nc := if i_ack i then bits (i_value i) 0 8 else 0;
+           h_ac := false; h_na := 0; h_cc := cm; h_nc := if cm then bits (i_value i) 0 8 else 0;
            h_halt := 0 |}
     | HGetDescriptor =>
         {| h_ack := sr; h_stall := i_dstall i; h_txv := i_dv i; h_txf := i_df i; h_txl := i_dl i; h_pid := pid;
@@ -226,12 +245,15 @@ Section CtlXfer.
     let dr := ctl_dr (x_ctl s) i in
     let sr := ctl_sr (x_ctl s) i in
     let std := i_std i in
-    let ho := if claimed i then h_outputs (x_h s) (x_pid s) i dr sr else fb_outputs dr sr in
+    let cm := commit (x_h s) (x_wa s) (x_wc s) i in
+    let ho := if claimed i then h_outputs (x_h s) (x_pid s) i dr sr cm else fb_outputs dr sr in
     ({| x_ctl := ctl_next (x_ctl s) i;
-        x_h := if std then h_next (x_h s) i dr sr else x_h s;
+        x_h := if std then h_next (x_h s) i dr sr cm else x_h s;
         x_pid := if std then h_pid_next (x_h s) (x_pid s) (x_ea s) i else x_pid s;
         x_ea := if std then h_ea_next (x_h s) (x_ea s) i dr else x_ea s;
-        x_sp := if std then h_sp_next (x_h s) (x_ea s) (x_sp s) i else x_sp s |},
+        x_sp := if std then h_sp_next (x_h s) (x_ea s) (x_sp s) i else x_sp s;
+        x_wa := if std then w_next (match x_h s with HSetAddress => true | _ => false end) (x_wa s) i sr cm else x_wa s;
+        x_wc := if std then w_next (match x_h s with HSetConfig => true | _ => false end) (x_wc s) i sr cm else x_wc s |},
      {| o_dr := dr; o_sr := sr;
         o_ack := i_sack i || h_ack ho || ctl_ping (x_ctl s) i;
         o_nak := false;
@@ -279,8 +301,8 @@ Definition cx_unpack (w : N) : cx_out :=
      o_pid := d8 mod 4; o_ac := nb (d9 mod 2); o_na := d10 mod 128; o_cc := nb (d11 mod 2);
      o_nc := d12 mod 256; o_halt := d13 mod 64; o_ds := nb (d14 mod 2); o_ss := nb (d15 mod 2); o_sp := d16 |}.
 
-Definition cx_stepN (EP mps spw : N) (skip : N -> bool) (s : cx_state) (i : N) : cx_state * N :=
-  let (s', o) := cx_step EP mps spw skip s i in (s', cx_pack o).
+Definition cx_stepN (EP mps spw : N) (skip : N -> bool) (gate : bool) (s : cx_state) (i : N) : cx_state * N :=
+  let (s', o) := cx_step EP mps spw skip gate s i in (s', cx_pack o).
 
 Definition cs_code (c : cstage) : N :=
   match c with CSetup => 0 | CDataIn => 1 | CDataOut => 2 | CStatusIn => 3 | CStatusOut => 4 end.
@@ -293,10 +315,12 @@ Definition hs_of (n : N) : hstate :=
   match n with 0 => HIdle | 1 => HGetStatus | 2 => HClearFeature | 3 => HSetAddress | 4 => HSetConfig
              | 5 => HGetDescriptor | 6 => HGetConfig | _ => HUnhandled end.
 Definition cx_enc (s : cx_state) : N :=
-  pk 8 (cs_code (x_ctl s)) (pk 8 (hs_code (x_h s)) (pk 2 (b2n (x_pid s)) (pk 2 (b2n (x_ea s)) (x_sp s)))).
+  pk 8 (cs_code (x_ctl s)) (pk 8 (hs_code (x_h s)) (pk 2 (b2n (x_pid s)) (pk 2 (b2n (x_ea s))
+     (pk 2 (b2n (x_wa s)) (pk 2 (b2n (x_wc s)) (x_sp s)))))).
 Definition cx_dec (n : N) : cx_state :=
   {| x_ctl := cs_of (n mod 8); x_h := hs_of ((n / 8) mod 8); x_pid := nb ((n / 8 / 8) mod 2);
-     x_ea := nb ((n / 8 / 8 / 2) mod 2); x_sp := n / 8 / 8 / 2 / 2 |}.
+     x_ea := nb ((n / 8 / 8 / 2) mod 2); x_wa := nb ((n / 8 / 8 / 2 / 2) mod 2);
+     x_wc := nb ((n / 8 / 8 / 2 / 2 / 2) mod 2); x_sp := n / 8 / 8 / 2 / 2 / 2 / 2 |}.
 
 (* the skiplists of the tie configurations *)
 Definition skip_none (i : N) : bool := false.
